@@ -49,7 +49,8 @@ pub fn all_cases() -> Vec<Case> {
             exits.push(Exit::FailIn(cb, f));
         }
     }
-    for timing in 0..3 {
+    // timing: 0 = idle, 1 = parked in a message handler, 2 = parked in post_start, 3 = parked in the supervision handler
+    for timing in 0..4 {
         exits.push(Exit::Stop { reason: true, timing });
         exits.push(Exit::Stop { reason: false, timing });
         exits.push(Exit::Drain { timing });
@@ -167,6 +168,10 @@ pub fn run_case(idx: u64, case: &Case, tl: Option<(&tokio::runtime::Runtime, rac
         }
         if timing == 2 {
             child.post_start.insert(0, Step::Park(gate.clone()));
+        }
+        if timing == 3 {
+            // the grandchild stops itself right after starting: its exit event parks the child in handle_supervisor_evt
+            child.sup_evt.insert(0, Step::Park(gate.clone()));
         }
         // thread engine: the child runs concurrently on its own thread; hold it at the top of post_start until the
         // monitor has been registered (otherwise "monitor missed the exit" would be a harness race)
